@@ -275,6 +275,160 @@ func evalCalls(fn *ssa.Function) []evalCall {
 	return out
 }
 
+// evalRef: an evaluation (GetMatchingNodes call) belonging to operator `root`:
+// made in root itself (via == nil) or in a module helper that root calls
+// directly (via = that call), whose parameters stand for root's arguments.
+type evalRef struct {
+	call   *ssa.Call
+	holder *ssa.Function
+	via    *ssa.Call
+	side   string // "LHS" / "RHS" / ""
+}
+
+// operatorEvals: the evaluations of root, direct and one helper level deep.
+func operatorEvals(root *ssa.Function) []evalRef {
+	var out []evalRef
+	sideOf := func(text string) string {
+		switch {
+		case strings.HasSuffix(text, ".LHS"):
+			return "LHS"
+		case strings.HasSuffix(text, ".RHS"):
+			return "RHS"
+		}
+		return ""
+	}
+	for _, e := range evalCalls(root) {
+		out = append(out, evalRef{e.call, root, nil, sideOf(e.exp)})
+	}
+	eachInstr(root, func(ins ssa.Instruction) {
+		via, ok := ins.(*ssa.Call)
+		if !ok || isGetMatching(via) {
+			return
+		}
+		h := via.Call.StaticCallee()
+		if h == nil || h.Blocks == nil || h == root || !strings.HasPrefix(funcKey(h), "yqlib.") {
+			return
+		}
+		for _, e := range evalCalls(h) {
+			text := e.exp
+			// the expression operand may be a parameter of the helper: what root passes for it
+			if p, isP := e.call.Call.Args[2].(*ssa.Parameter); isP {
+				if a := argOf(&via.Call, h, p); a != nil {
+					text = exprOfValue(a)
+				}
+			}
+			out = append(out, evalRef{e.call, h, via, sideOf(text)})
+		}
+	})
+	return out
+}
+
+// ownContextAt: v, a value inside e.holder, is root's own context (for a helper:
+// the helper's Context parameter for which root passes its own context).
+func ownContextAt(root *ssa.Function, e evalRef, v ssa.Value) bool {
+	if e.via == nil {
+		return isOwnContext(root, v)
+	}
+	if al, ok := v.(*ssa.Alloc); ok {
+		v = &ssa.UnOp{X: al}
+	}
+	var p *ssa.Parameter
+	switch x := v.(type) {
+	case *ssa.Parameter:
+		p = x
+	case *ssa.UnOp:
+		if al, ok := x.X.(*ssa.Alloc); ok && al.Referrers() != nil {
+			for _, ref := range *al.Referrers() {
+				if st, ok := ref.(*ssa.Store); ok && st.Addr == al {
+					if pp, ok := st.Val.(*ssa.Parameter); ok {
+						p = pp
+					}
+				}
+			}
+		}
+	}
+	if p == nil {
+		return false
+	}
+	a := argOf(&e.via.Call, e.holder, p)
+	return a != nil && isOwnContext(root, a)
+}
+
+// nodesOfEvalInRoot: v, a value in root, is the MatchingNodes of the result of
+// evaluation e — directly, or through the helper's result: Extract(via, k) where
+// every successful return of the helper yields at k the Context of e (then
+// .MatchingNodes is read in root) or its MatchingNodes.
+func nodesOfEvalInRoot(v ssa.Value, e evalRef) bool {
+	if e.via == nil {
+		return matchingNodesOf(v, e.call)
+	}
+	helperYields := func(k int, wantNodes bool) bool {
+		n := 0
+		for _, b := range e.holder.Blocks {
+			ret, ok := b.Instrs[len(b.Instrs)-1].(*ssa.Return)
+			if !ok || k >= len(ret.Results) {
+				continue
+			}
+			// error exits: last result non-nil constant / zero Context: skip returns whose error result is not a nil constant
+			if last := ret.Results[len(ret.Results)-1]; isErrorType(last.Type()) {
+				if c, isC := last.(*ssa.Const); !isC || !c.IsNil() {
+					continue
+				}
+			}
+			n++
+			rv := ret.Results[k]
+			// a result kept in a local: what was stored into it
+			if u, ok := rv.(*ssa.UnOp); ok {
+				if al, ok := u.X.(*ssa.Alloc); ok && al.Referrers() != nil {
+					var stored []ssa.Value
+					for _, ref := range *al.Referrers() {
+						if st, ok := ref.(*ssa.Store); ok && st.Addr == al {
+							stored = append(stored, st.Val)
+						}
+					}
+					if len(stored) == 1 {
+						rv = stored[0]
+					}
+				}
+			}
+			if wantNodes {
+				if !matchingNodesOf(rv, e.call) {
+					return false
+				}
+			} else {
+				ex, ok := rv.(*ssa.Extract)
+				if !ok || ex.Tuple != ssa.Value(e.call) || ex.Index != 0 {
+					return false
+				}
+			}
+		}
+		return n > 0
+	}
+	switch x := v.(type) {
+	case *ssa.Extract:
+		return x.Tuple == ssa.Value(e.via) && helperYields(x.Index, true)
+	case *ssa.Field:
+		if fieldNameOfField(x) == "MatchingNodes" {
+			if ex, ok := x.X.(*ssa.Extract); ok && ex.Tuple == ssa.Value(e.via) {
+				return helperYields(ex.Index, false)
+			}
+		}
+	case *ssa.UnOp:
+		if fa, ok := x.X.(*ssa.FieldAddr); ok && fieldName(fa) == "MatchingNodes" {
+			if al, ok := fa.X.(*ssa.Alloc); ok && al.Referrers() != nil {
+				for _, ref := range *al.Referrers() {
+					if st, ok := ref.(*ssa.Store); ok && st.Addr == al {
+						if ex, ok := st.Val.(*ssa.Extract); ok && ex.Tuple == ssa.Value(e.via) {
+							return helperYields(ex.Index, false)
+						}
+					}
+				}
+			}
+		}
+	}
+	return false
+}
+
 // matchingNodesOf: v is the MatchingNodes field of the Context result of call.
 func matchingNodesOf(v ssa.Value, call *ssa.Call) bool {
 	switch x := v.(type) {
@@ -347,38 +501,43 @@ func checkN1(c *Ctx, rule string) {
 		r.Fatal("anchor missing: pipeOperator")
 		return
 	}
-	var lhs, rhs *ssa.Call
-	for _, e := range evalCalls(fn) {
-		switch {
-		case strings.HasSuffix(e.exp, ".LHS"):
-			lhs = e.call
-		case strings.HasSuffix(e.exp, ".RHS"):
-			rhs = e.call
+	var lhs, rhs *evalRef
+	for _, e := range operatorEvals(fn) {
+		e := e
+		switch e.side {
+		case "LHS":
+			lhs = &e
+		case "RHS":
+			rhs = &e
 		}
 	}
-	if lhs == nil || rhs == nil {
-		r.Fatal("anchor moved: pipeOperator does not evaluate expressionNode.LHS and expressionNode.RHS")
+	if lhs == nil || rhs == nil || lhs.holder != rhs.holder {
+		r.Fatal("anchor moved: pipeOperator does not evaluate expressionNode.LHS and expressionNode.RHS (itself or in one helper)")
 		return
 	}
 	// (a) the right side's context
 	key := "pipeOperator/right-side-context"
-	recv, list, ok := childContextOf(rhs.Call.Args[1])
+	recv, list, ok := childContextOf(rhs.call.Call.Args[1])
 	switch {
 	case !ok:
-		r.Finding(rule, key, c.P.pos(rhs.Pos()), "the right side of `|` is not evaluated in context.ChildContext(<left results>): either it does not see the left side's results or it inherits the left side's scope")
-	case !isOwnContext(fn, recv):
-		r.Finding(rule, key, c.P.pos(rhs.Pos()), "the context of the right side of `|` is derived from "+exprOfValue(recv)+", not from the operator's own context")
-	case !matchingNodesOf(list, lhs):
-		r.Finding(rule, key, c.P.pos(rhs.Pos()), "the right side of `|` does not run on the left side's results ("+exprOfValue(list)+")")
+		r.Finding(rule, key, c.P.pos(rhs.call.Pos()), "the right side of `|` is not evaluated in context.ChildContext(<left results>): either it does not see the left side's results or it inherits the left side's scope")
+	case !ownContextAt(fn, *rhs, recv):
+		r.Finding(rule, key, c.P.pos(rhs.call.Pos()), "the context of the right side of `|` is derived from "+exprOfValue(recv)+", not from the operator's own context")
+	case !matchingNodesOf(list, lhs.call):
+		r.Finding(rule, key, c.P.pos(rhs.call.Pos()), "the right side of `|` does not run on the left side's results ("+exprOfValue(list)+")")
 	default:
-		r.Discharge(rule, key, c.P.pos(rhs.Pos()), "context.ChildContext(lhs.MatchingNodes)")
+		r.Discharge(rule, key, c.P.pos(rhs.call.Pos()), "context.ChildContext(lhs.MatchingNodes)")
 	}
 	// (b) what the pipe returns after evaluating the right side
 	key = "pipeOperator/result"
 	okRet, n := true, 0
+	after := rhs.call.Block()
+	if rhs.via != nil {
+		after = rhs.via.Block()
+	}
 	for _, b := range fn.Blocks {
 		ret, isRet := b.Instrs[len(b.Instrs)-1].(*ssa.Return)
-		if !isRet || !rhs.Block().Dominates(b) || len(ret.Results) != 2 {
+		if !isRet || !after.Dominates(b) || len(ret.Results) != 2 {
 			continue
 		}
 		if k, isK := ret.Results[1].(*ssa.Const); !isK || !k.IsNil() {
@@ -386,7 +545,7 @@ func checkN1(c *Ctx, rule string) {
 		}
 		n++
 		recvR, l, isChild := childContextOf(ret.Results[0])
-		if !(isChild && matchingNodesOf(l, rhs) && isOwnContext(fn, recvR)) {
+		if !(isChild && nodesOfEvalInRoot(l, *rhs) && isOwnContext(fn, recvR)) {
 			okRet = false
 		}
 	}
@@ -450,37 +609,38 @@ func checkN2(c *Ctx) {
 		r.Fatal("anchor missing: unionOperator")
 		return
 	}
-	var lhs, rhs *ssa.Call
-	for _, e := range evalCalls(fn) {
-		switch {
-		case strings.HasSuffix(e.exp, ".LHS"):
-			lhs = e.call
-		case strings.HasSuffix(e.exp, ".RHS"):
-			rhs = e.call
+	var lhs, rhs *evalRef
+	for _, e := range operatorEvals(fn) {
+		e := e
+		switch e.side {
+		case "LHS":
+			lhs = &e
+		case "RHS":
+			rhs = &e
 		}
 	}
 	if lhs == nil || rhs == nil {
-		r.Fatal("anchor moved: unionOperator does not evaluate expressionNode.LHS and expressionNode.RHS")
+		r.Fatal("anchor moved: unionOperator does not evaluate expressionNode.LHS and expressionNode.RHS (itself or in a helper)")
 		return
 	}
 	for _, side := range []struct {
 		name string
-		call *ssa.Call
+		e    *evalRef
 	}{{"left", lhs}, {"right", rhs}} {
 		key := "unionOperator/" + side.name + "-context"
-		if isOwnContext(fn, side.call.Call.Args[1]) {
-			r.Discharge("N2", key, c.P.pos(side.call.Pos()), "evaluated in the operator's own context")
+		if ownContextAt(fn, *side.e, side.e.call.Call.Args[1]) {
+			r.Discharge("N2", key, c.P.pos(side.e.call.Pos()), "evaluated in the operator's own context")
 		} else {
-			r.Finding("N2", key, c.P.pos(side.call.Pos()), "the "+side.name+" operand of `,` is evaluated in "+exprOfValue(side.call.Call.Args[1])+", not in the operator's context: `a, b` is no longer the results of a followed by the results of b on the same input")
+			r.Finding("N2", key, c.P.pos(side.e.call.Pos()), "the "+side.name+" operand of `,` is evaluated in "+exprOfValue(side.e.call.Call.Args[1])+", not in the operator's context: `a, b` is no longer the results of a followed by the results of b on the same input")
 		}
 	}
 	var lLoop, rLoop *listLoop
 	for _, l := range listLoops(fn) {
 		l := l
-		if matchingNodesOf(l.list, lhs) {
+		if nodesOfEvalInRoot(l.list, *lhs) {
 			lLoop = &l
 		}
-		if matchingNodesOf(l.list, rhs) {
+		if nodesOfEvalInRoot(l.list, *rhs) {
 			rLoop = &l
 		}
 	}
